@@ -12,14 +12,23 @@ import (
 	"go/ast"
 	"go/parser"
 	"go/token"
+	"math"
 	"os"
+	"os/exec"
 	"path/filepath"
 	"sort"
 	"strconv"
 	"strings"
 
+	"github.com/go-faster/jx"
+
+	"github.com/ogen-go/ogen"
+	"github.com/ogen-go/ogen/conv"
+	"github.com/ogen-go/ogen/gen"
 	ht "github.com/ogen-go/ogen/http"
+	ogenjson "github.com/ogen-go/ogen/json"
 	"github.com/ogen-go/ogen/ogenerrors"
+	"github.com/ogen-go/ogen/ogenregex"
 	"github.com/ogen-go/ogen/validate"
 )
 
@@ -221,9 +230,11 @@ func factsCLI(repo string) (string, int) {
 	})
 	sort.Strings(suffixes)
 	sort.Strings(prefixes)
-	if len(suffixes) == 0 || len(prefixes) == 0 {
-		fail("cmd/ogen/main.go cleanDir(): no HasSuffix/HasPrefix literals found")
-	}
+	// the filter itself is observed, not read: the built binary cleans a directory that holds a probe file for
+	// every candidate prefix × candidate suffix (and a directory with an own-pattern name); the prefixes and
+	// suffixes of the removed probes are the lists, provided the removed set is exactly their product
+	_, _ = suffixes, prefixes
+	prefixes, suffixes, skipsDirs = observeCleanFilter(repo)
 	var sb strings.Builder
 	sb.WriteString("/-! GENERATED by harness/cmd/extract from cmd/ogen/main.go — do not edit. -/\nnamespace Facts.CLI\n")
 	fmt.Fprintf(&sb, "/-- calls of `generate()` in source order -/\ndef callOrder : List String := %s\n", leanList(order))
@@ -235,163 +246,180 @@ func factsCLI(repo string) (string, int) {
 	return sb.String(), len(order) + len(suffixes) + len(prefixes) + 2
 }
 
-// conv: the strconv.FormatFloat / AppendFloat arguments of the float text helpers
-func factsFloat(repo string) (string, int) {
-	type spec struct{ fn, verb, prec, bits, want string }
-	var specs []spec
-	scan := func(path string, pkgFn string) {
-		_, f := parseFile(filepath.Join(repo, path))
-		for _, d := range f.Decls {
-			fd, ok := d.(*ast.FuncDecl)
-			if !ok || fd.Body == nil {
-				continue
-			}
-			ast.Inspect(fd.Body, func(n ast.Node) bool {
-				c, ok := n.(*ast.CallExpr)
-				if !ok {
-					return true
-				}
-				nm := callName(c)
-				if nm != "strconv.FormatFloat" && nm != "strconv.AppendFloat" {
-					return true
-				}
-				args := c.Args
-				if nm == "strconv.AppendFloat" {
-					args = args[1:]
-				}
-				if len(args) != 4 {
-					return true
-				}
-				txt := func(e ast.Expr) string {
-					switch x := e.(type) {
-					case *ast.BasicLit:
-						return x.Value
-					case *ast.UnaryExpr:
-						if l, ok := x.X.(*ast.BasicLit); ok {
-							return x.Op.String() + l.Value
-						}
-					case *ast.Ident:
-						return x.Name
-					}
-					return "?"
-				}
-				// the bit size the value's own type calls for: the type of the first float parameter
-				want := "?"
-				for _, fl := range fd.Type.Params.List {
-					if id, ok := fl.Type.(*ast.Ident); ok {
-						switch id.Name {
-						case "float32":
-							want = "32"
-						case "float64":
-							want = "64"
-						}
-					}
-					if want != "?" {
-						break
-					}
-				}
-				if want == "?" {
-					// generic helper: the bit size is a parameter that the callers pass
-					want = txt(args[3])
-					for _, fl := range fd.Type.Params.List {
-						for _, n := range fl.Names {
-							if n.Name == want {
-								want = "param:" + n.Name
-							}
-						}
-					}
-				}
-				specs = append(specs, spec{fd.Name.Name, txt(args[1]), txt(args[2]), txt(args[3]), want})
-				return true
-			})
+func observeCleanFilter(repo string) (prefixes, suffixes []string, skipsDirs bool) {
+	scratch := os.Getenv("VERIF_SCRATCH")
+	if scratch == "" {
+		scratch = "/var/tmp"
+	}
+	dir, err := os.MkdirTemp(scratch, "extract-cli-")
+	if err != nil {
+		fail("scratch directory: %v", err)
+	}
+	defer os.RemoveAll(dir)
+	bin := filepath.Join(dir, "ogen")
+	build := exec.Command("go", "build", "-o", bin, "./cmd/ogen")
+	build.Dir = repo
+	if out, err := build.CombinedOutput(); err != nil {
+		fail("go build ./cmd/ogen: %v\n%s", err, out)
+	}
+	spec := filepath.Join(dir, "spec.json")
+	os.WriteFile(spec, []byte(`{"openapi":"3.0.3","info":{"title":"t","version":"1"},"paths":{"/a":{"get":{"operationId":"a","responses":{"200":{"description":"ok"}}}}}}`), 0o644)
+	tgt := filepath.Join(dir, "api")
+	os.MkdirAll(tgt, 0o755)
+	candP := []string{"oas", "openapi", "oa", "o", "open", "api", "Oas", "OAS", "x", "_oas", "ogen"}
+	candS := []string{"_gen.go", "_gen_test.go", "_gen", "gen.go", ".go", "_test.go", "_gen.go.bak", "_gen_tests.go", "_gen_set.go", "_gen_t.go", "_GEN.go", "_gen.GO"}
+	name := func(p, s string) string { return p + "_probe" + s }
+	for _, p := range candP {
+		for _, s := range candS {
+			os.WriteFile(filepath.Join(tgt, name(p, s)), []byte("package api\n"), 0o644)
 		}
 	}
-	scan("conv/encode.go", "conv")
-	scan("json/float.go", "json")
-	if len(specs) < 4 {
-		fail("conv/encode.go, json/float.go: fewer than 4 FormatFloat/AppendFloat calls found (%d)", len(specs))
+	os.MkdirAll(filepath.Join(tgt, "oas_probedir_gen.go"), 0o755)
+	os.WriteFile(filepath.Join(tgt, "oas_probedir_gen.go", "oas_inner_gen.go"), []byte("package x\n"), 0o644)
+	run := exec.Command(bin, "--clean", "--target", tgt, "--package", "api", spec)
+	run.Dir = dir
+	if out, err := run.CombinedOutput(); err != nil {
+		fail("ogen --clean on the probe directory: %v\n%s", err, out)
+	}
+	removed := map[[2]string]bool{}
+	inP, inS := map[string]bool{}, map[string]bool{}
+	for _, p := range candP {
+		for _, s := range candS {
+			if _, err := os.Stat(filepath.Join(tgt, name(p, s))); err != nil {
+				removed[[2]string{p, s}] = true
+				inP[p], inS[s] = true, true
+			}
+		}
+	}
+	for _, p := range candP {
+		for _, s := range candS {
+			if removed[[2]string{p, s}] != (inP[p] && inS[s]) {
+				fail("cmd/ogen --clean: the set of removed probe files is not (some prefixes) × (some suffixes): %s removed=%v", name(p, s), removed[[2]string{p, s}])
+			}
+		}
+	}
+	for p := range inP {
+		prefixes = append(prefixes, p)
+	}
+	for s := range inS {
+		suffixes = append(suffixes, s)
+	}
+	sort.Strings(prefixes)
+	sort.Strings(suffixes)
+	if len(prefixes) == 0 || len(suffixes) == 0 {
+		fail("cmd/ogen --clean removed none of the probe files")
+	}
+	_, errDir := os.Stat(filepath.Join(tgt, "oas_probedir_gen.go", "oas_inner_gen.go"))
+	return prefixes, suffixes, errDir == nil
+}
+
+// float: observed, not read — which strconv.FormatFloat(v, verb, precision, bits) each float text helper of
+// /repo's conv and json packages computes, identified on probe values that tell the candidates apart
+// (1e21: 'f' vs 'g' vs 'e'; 0.1+0.2 and float32(0.1): the bit size; 1e-11, 1/3: a fixed precision). A rewrite
+// that keeps the helpers' answers keeps these facts.
+func factsFloat(repo string) (string, int) {
+	probes64 := []float64{1e21, 1e-7, 0.1 + 0.2, 1, 16777217, 1e-11, 123456789.125, 5e-324, math.MaxFloat64, -2.5, 1.0 / 3, 1e20, 123456, 0}
+	type cand struct {
+		verb byte
+		prec int
+		bits int
+	}
+	var cands []cand
+	for _, verb := range []byte{'f', 'g', 'e', 'G', 'E'} {
+		for prec := -1; prec <= 17; prec++ {
+			for _, bits := range []int{32, 64} {
+				cands = append(cands, cand{verb, prec, bits})
+			}
+		}
+	}
+	identify := func(name string, own int, f func(v float64) string) [5]string {
+		var hits []cand
+		for _, c := range cands {
+			ok := true
+			for _, p := range probes64 {
+				v := p
+				if own == 32 {
+					v = float64(float32(p))
+				}
+				if strconv.FormatFloat(v, c.verb, c.prec, c.bits) != f(v) {
+					ok = false
+					break
+				}
+			}
+			if ok {
+				hits = append(hits, c)
+			}
+		}
+		if len(hits) != 1 {
+			fail("float helper %s: %d candidate (verb, precision, bit size) triples reproduce its output on the probe values (want exactly 1): %v", name, len(hits), hits)
+		}
+		h := hits[0]
+		return [5]string{name, "'" + string(h.verb) + "'", strconv.Itoa(h.prec), strconv.Itoa(h.bits), strconv.Itoa(own)}
+	}
+	unq := func(enc func(e *jx.Encoder)) string {
+		var e jx.Encoder
+		enc(&e)
+		s := string(e.Bytes())
+		return strings.TrimSuffix(strings.TrimPrefix(s, "\""), "\"")
+	}
+	specs := [][5]string{
+		identify("Float32ToString", 32, func(v float64) string { return conv.Float32ToString(float32(v)) }),
+		identify("Float64ToString", 64, func(v float64) string { return conv.Float64ToString(v) }),
+		identify("StringFloat32ToString", 32, func(v float64) string { return conv.StringFloat32ToString(float32(v)) }),
+		identify("StringFloat64ToString", 64, func(v float64) string { return conv.StringFloat64ToString(v) }),
+		identify("EncodeStringFloat32", 32, func(v float64) string {
+			return unq(func(e *jx.Encoder) { ogenjson.EncodeStringFloat32(e, float32(v)) })
+		}),
+		identify("EncodeStringFloat64", 64, func(v float64) string {
+			return unq(func(e *jx.Encoder) { ogenjson.EncodeStringFloat64(e, v) })
+		}),
 	}
 	var sb strings.Builder
-	sb.WriteString("/-! GENERATED by harness/cmd/extract from conv/encode.go and json/float.go — do not edit. -/\nnamespace Facts.Float\n")
-	sb.WriteString("/-- (function, verb, precision, bit size, bit size of the value's own type or param:<name>) of every strconv.FormatFloat / AppendFloat call -/\ndef formatCalls : List (String × String × String × String × String) := [\n")
-	for i, s := range specs {
+	sb.WriteString("/-! GENERATED by harness/cmd/extract from conv and json (observed on the linked packages) — do not edit. -/\nnamespace Facts.Float\n")
+	sb.WriteString("/-- (function, verb, precision, bit size, bit size of the value's own type) of the strconv.FormatFloat call each float text helper computes -/\ndef formatCalls : List (String × String × String × String × String) := [\n")
+	for i, c := range specs {
 		sep := ","
 		if i == len(specs)-1 {
 			sep = ""
 		}
-		fmt.Fprintf(&sb, "  (%s, %s, %s, %s, %s)%s\n", leanStr(s.fn), leanStr(s.verb), leanStr(s.prec), leanStr(s.bits), leanStr(s.want), sep)
+		fmt.Fprintf(&sb, "  (%s, %s, %s, %s, %s)%s\n", leanStr(c[0]), leanStr(c[1]), leanStr(c[2]), leanStr(c[3]), leanStr(c[4]), sep)
 	}
 	sb.WriteString("]\nend Facts.Float\n")
 	return sb.String(), len(specs)
 }
 
-// regex: the replacement strings and tables of ogenregex/convert.go
+
+// regex: observed, not read — the replacement texts of the converter are what `ogenregex.Convert` of the linked
+// package answers for the one-token patterns `\s`, `.`, `[]` and `[^]`
 func factsRegex(repo string) (string, int) {
-	_, f := parseFile(filepath.Join(repo, "ogenregex/convert.go"))
-	consts := map[string]string{}
-	for _, d := range f.Decls {
-		gd, ok := d.(*ast.GenDecl)
+	conv1 := func(p string) []rune {
+		out, ok := ogenregex.Convert(p)
 		if !ok {
-			continue
+			fail("ogenregex.Convert(%q) reports that the pattern cannot be converted", p)
 		}
-		for _, sp := range gd.Specs {
-			vs, ok := sp.(*ast.ValueSpec)
-			if !ok {
-				continue
-			}
-			for i, n := range vs.Names {
-				if i < len(vs.Values) {
-					if s, ok := constString(vs.Values[i]); ok {
-						consts[n.Name] = s
-					}
-				}
-			}
+		return []rune(out)
+	}
+	ws := conv1(`\s`)
+	if len(ws) < 2 || ws[0] != '[' || ws[len(ws)-1] != ']' {
+		fail("ogenregex.Convert(`\\s`) is not a bracket class: %q", string(ws))
+	}
+	if neg := conv1(`\S`); string(neg) != "[^"+string(ws[1:]) {
+		fail("ogenregex.Convert(`\\S`) is not the negation of Convert(`\\s`): %q", string(neg))
+	}
+	cps := func(rs []rune) string {
+		parts := make([]string, len(rs))
+		for i, r := range rs {
+			parts[i] = strconv.Itoa(int(r))
 		}
+		return "[" + strings.Join(parts, ", ") + "]"
 	}
-	// string literals written by scanBracket for "[]" and "[^]"
-	var bracket []string
-	if sb := findMethod(f, "scanBracket"); sb != nil {
-		ast.Inspect(sb.Body, func(n ast.Node) bool {
-			c, ok := n.(*ast.CallExpr)
-			if !ok {
-				return true
-			}
-			if callName(c) == "p.writeString" && len(c.Args) == 1 {
-				if lit, ok := c.Args[0].(*ast.BasicLit); ok && lit.Kind == token.STRING {
-					s, _ := strconv.Unquote(lit.Value)
-					bracket = append(bracket, s)
-				}
-			}
-			return true
-		})
-	}
-	if len(bracket) < 2 {
-		fail("ogenregex/convert.go scanBracket(): the two replacement literals for [] and [^] were not found")
-	}
-	for _, need := range []string{"whitespaceChars", "re2Dot"} {
-		if _, ok := consts[need]; !ok {
-			fail("ogenregex/convert.go: constant %s not found", need)
-		}
-	}
-	var sbd strings.Builder
-	sbd.WriteString("/-! GENERATED by harness/cmd/extract from ogenregex/convert.go — do not edit. -/\nnamespace Facts.Regex\n")
-	keys := make([]string, 0, len(consts))
-	for k := range consts {
-		keys = append(keys, k)
-	}
-	sort.Strings(keys)
-	sbd.WriteString("/-- string constants, as code point lists -/\ndef consts : List (String × List Nat) := [\n")
-	for i, k := range keys {
-		sep := ","
-		if i == len(keys)-1 {
-			sep = ""
-		}
-		fmt.Fprintf(&sbd, "  (%s, %s)%s\n", leanStr(k), runeList(consts[k]), sep)
-	}
-	sbd.WriteString("]\n")
-	fmt.Fprintf(&sbd, "/-- what `scanBracket` writes for `[]` (first) and `[^]` (second), as code point lists -/\ndef emptyClass : List Nat := %s\ndef anyClass : List Nat := %s\n", runeList(bracket[0]), runeList(bracket[1]))
-	sbd.WriteString("end Facts.Regex\n")
-	return sbd.String(), len(consts) + 2
+	var sb strings.Builder
+	sb.WriteString("/-! GENERATED by harness/cmd/extract from ogenregex (observed on the linked package) — do not edit. -/\nnamespace Facts.Regex\n")
+	sb.WriteString("/-- string constants, as code point lists: the class `.` becomes, the members of the class `\\s` becomes -/\ndef consts : List (String × List Nat) := [\n")
+	fmt.Fprintf(&sb, "  (\"re2Dot\", %s),\n  (\"whitespaceChars\", %s)\n]\n", cps(conv1(".")), cps(ws[1:len(ws)-1]))
+	fmt.Fprintf(&sb, "/-- what `[]` (first) and `[^]` (second) become, as code point lists -/\ndef emptyClass : List Nat := %s\ndef anyClass : List Nat := %s\n", cps(conv1("[]")), cps(conv1("[^]")))
+	sb.WriteString("end Facts.Regex\n")
+	return sb.String(), 4
 }
 
 // constString evaluates a string literal or a concatenation of string literals
@@ -550,52 +578,269 @@ func factsTmpl(repo string) (string, int) {
 	}
 	test := line(h, "handlers.tmpl", "satisfied[i] &")
 	setBit := line(h, "handlers.tmpl", "satisfied[{{")
-	rd := read("gen/_template/request_decode.tmpl")
-	shortcut := line(rd, "request_decode.tmpl", `r.Header["Content-Type"]; !ok`)
-	// the generic (Opt/Nil/OptNil) Decode: which wrapper fields are assigned on the null path and which are
-	// reset before a value is decoded
-	g := read("gen/_template/json/encoders_generic.tmpl")
-	dstart := first(g, "func (o *{{ $.Name }}) Decode(")
-	if dstart < 0 {
-		fail("encoders_generic.tmpl: Decode not found")
-	}
-	var nullPath, valueResets []string
-	phase := 0 // 0 before the null block, 1 inside it, 2 after it (until the first value branch)
-	for i := dstart; i < len(g); i++ {
-		l := g[i]
-		switch {
-		case phase == 0 && strings.Contains(l, "d.Next() == jx.Null"):
-			phase = 1
-		case phase == 1 && l == "return nil":
-			phase = 2
-		case phase == 2 && strings.HasPrefix(l, "{{- if $g.Format }}"):
-			phase = 3
-		}
-		if strings.HasPrefix(l, "o.") && strings.Contains(l, " = ") {
-			if phase == 1 {
-				nullPath = append(nullPath, l)
-			} else if phase == 2 {
-				valueResets = append(valueResets, l)
-			}
-		}
-		if phase == 3 {
-			break
-		}
-	}
-	if phase != 3 {
-		fail("encoders_generic.tmpl: the shape of Decode changed (null block / value branches not found)")
-	}
+	// read off the *generated* Go of a probe document (go/ast, normalised), not off the template text: the no-body
+	// shortcut of an optional request body as a sorted list of `&&` conjuncts, and the generic (OptNil) Decode
+	// as sorted sets of assignments to the receiver (a right-hand side that is not a literal is `<value>`, an
+	// identifier that is neither the request nor the receiver is `<local>`)
+	genFiles := generateProbe()
+	shortcut := optionalBodyConjuncts(genFiles)
+	nullPath, valueResets := genericDecodeAssignments(genFiles)
 	var sb strings.Builder
 	sb.WriteString("/-! GENERATED by harness/cmd/extract from gen/_template/handlers.tmpl, request_decode.tmpl and json/encoders_generic.tmpl — do not edit. -/\nnamespace Facts.Tmpl\n")
-	fmt.Fprintf(&sb, "/-- generic Decode: assignments to the wrapper on the null path, in order -/\ndef genericDecodeNullPath : List String := %s\n", leanList(nullPath))
-	fmt.Fprintf(&sb, "/-- generic Decode: assignments to the wrapper before a (non-null) value is decoded -/\ndef genericDecodeValueResets : List String := %s\n", leanList(valueResets))
+	fmt.Fprintf(&sb, "/-- generic Decode: assignments to the wrapper on the null path (sorted) -/\ndef genericDecodeNullPath : List String := %s\n", leanList(nullPath))
+	fmt.Fprintf(&sb, "/-- generic Decode: assignments to the wrapper before a (non-null) value is decoded (sorted) -/\ndef genericDecodeValueResets : List String := %s\n", leanList(valueResets))
 	fmt.Fprintf(&sb, "/-- the stages of a request handler in the order in which they appear in the template -/\ndef stageOrder : List String := %s\n", leanList(order))
 	fmt.Fprintf(&sb, "/-- `return` statements between a stage's marker and the next stage's -/\ndef returnsAfter : List (String × Nat) := [%s]\n", strings.Join(returns, ", "))
 	fmt.Fprintf(&sb, "/-- the requirement test of the security check -/\ndef securityTest : String := %s\n", leanStr(test))
 	fmt.Fprintf(&sb, "/-- the statement that records an authenticated scheme -/\ndef securitySetBit : String := %s\n", leanStr(setBit))
-	fmt.Fprintf(&sb, "/-- the no-body shortcut of an optional request body -/\ndef optionalBodyShortcut : String := %s\n", leanStr(shortcut))
+	fmt.Fprintf(&sb, "/-- the no-body shortcut of an optional request body: the conjuncts of its condition (sorted) -/\ndef optionalBodyShortcut : List String := %s\n", leanList(shortcut))
 	sb.WriteString("end Facts.Tmpl\n")
 	return sb.String(), len(order) + len(returns) + 3
+}
+
+type probeFS struct{ files map[string][]byte }
+
+func (m *probeFS) WriteFile(name string, content []byte) error {
+	m.files[name] = append([]byte(nil), content...)
+	return nil
+}
+
+// generateProbe runs /repo's generator (linked in) on a small document with an optional JSON request body and an
+// optional nullable string member, and returns the generated files
+func generateProbe() map[string][]byte {
+	const doc = `{"openapi":"3.0.3","info":{"title":"t","version":"1"},"paths":{"/a":{"post":{"operationId":"probe",
+	"requestBody":{"required":false,"content":{"application/json":{"schema":{"$ref":"#/components/schemas/P"}}}},
+	"responses":{"200":{"description":"ok"}}}}},
+	"components":{"schemas":{"P":{"type":"object","properties":{"s":{"type":"string","nullable":true}}}}}}`
+	spec, err := ogen.Parse([]byte(doc))
+	if err != nil {
+		fail("probe document: %v", err)
+	}
+	g, err := gen.NewGenerator(spec, gen.Options{})
+	if err != nil {
+		fail("probe document: generator: %v", err)
+	}
+	fs := &probeFS{files: map[string][]byte{}}
+	if err := g.WriteSource(fs, "api"); err != nil {
+		fail("probe document: write: %v", err)
+	}
+	return fs.files
+}
+
+func parseGenerated(files map[string][]byte) (*token.FileSet, []*ast.File) {
+	fset := token.NewFileSet()
+	var out []*ast.File
+	names := make([]string, 0, len(files))
+	for n := range files {
+		names = append(names, n)
+	}
+	sort.Strings(names)
+	for _, n := range names {
+		if !strings.HasSuffix(n, ".go") {
+			continue
+		}
+		f, err := parser.ParseFile(fset, n, files[n], 0)
+		if err != nil {
+			fail("generated probe file %s does not parse: %v", n, err)
+		}
+		out = append(out, f)
+	}
+	return fset, out
+}
+
+// exprText prints an expression with identifiers other than those in keep replaced by <local>
+func exprText(fset *token.FileSet, e ast.Expr, keep map[string]bool) string {
+	var sb strings.Builder
+	var rec func(e ast.Expr)
+	rec = func(e ast.Expr) {
+		switch x := e.(type) {
+		case *ast.Ident:
+			if keep[x.Name] || x.Name == "true" || x.Name == "false" || x.Name == "nil" {
+				sb.WriteString(x.Name)
+			} else {
+				sb.WriteString("<local>")
+			}
+		case *ast.SelectorExpr:
+			rec(x.X)
+			sb.WriteString("." + x.Sel.Name)
+		case *ast.UnaryExpr:
+			sb.WriteString(x.Op.String())
+			rec(x.X)
+		case *ast.BinaryExpr:
+			rec(x.X)
+			sb.WriteString(" " + x.Op.String() + " ")
+			rec(x.Y)
+		case *ast.ParenExpr:
+			rec(x.X)
+		case *ast.BasicLit:
+			sb.WriteString(x.Value)
+		case *ast.IndexExpr:
+			rec(x.X)
+			sb.WriteString("[")
+			rec(x.Index)
+			sb.WriteString("]")
+		case *ast.CallExpr:
+			rec(x.Fun)
+			sb.WriteString("(")
+			for i, a := range x.Args {
+				if i > 0 {
+					sb.WriteString(", ")
+				}
+				rec(a)
+			}
+			sb.WriteString(")")
+		default:
+			sb.WriteString("<expr>")
+		}
+	}
+	rec(e)
+	return sb.String()
+}
+
+func mentions(n ast.Node, text string) bool {
+	found := false
+	ast.Inspect(n, func(n ast.Node) bool {
+		switch x := n.(type) {
+		case *ast.SelectorExpr:
+			if id, ok := x.X.(*ast.Ident); ok && id.Name+"."+x.Sel.Name == text {
+				found = true
+			}
+		case *ast.BasicLit:
+			if x.Value == text {
+				found = true
+			}
+		}
+		return !found
+	})
+	return found
+}
+
+// optionalBodyConjuncts: the `if` of the request decoder that looks at both the Content-Type header and
+// r.ContentLength, as the sorted list of the conjuncts of its condition
+func optionalBodyConjuncts(files map[string][]byte) []string {
+	fset, fs := parseGenerated(files)
+	var out []string
+	for _, f := range fs {
+		ast.Inspect(f, func(n ast.Node) bool {
+			st, ok := n.(*ast.IfStmt)
+			if !ok || out != nil {
+				return true
+			}
+			if !mentions(st.Cond, "r.ContentLength") {
+				return true
+			}
+			var conj func(e ast.Expr)
+			conj = func(e ast.Expr) {
+				if p, ok := e.(*ast.ParenExpr); ok {
+					conj(p.X)
+					return
+				}
+				if b, ok := e.(*ast.BinaryExpr); ok && b.Op == token.LAND {
+					conj(b.X)
+					conj(b.Y)
+					return
+				}
+				// 0 == x and x == 0 are one conjunct
+				if b, ok := e.(*ast.BinaryExpr); ok && (b.Op == token.EQL || b.Op == token.NEQ) {
+					if _, lit := b.X.(*ast.BasicLit); lit {
+						e = &ast.BinaryExpr{X: b.Y, Op: b.Op, Y: b.X}
+					}
+				}
+				out = append(out, exprText(fset, e, map[string]bool{"r": true}))
+			}
+			conj(st.Cond)
+			return true
+		})
+	}
+	if out == nil {
+		fail("generated request decoder of the probe document: no `if` that tests r.ContentLength (the optional-body shortcut)")
+	}
+	sort.Strings(out)
+	return out
+}
+
+// genericDecodeAssignments: Decode of the generated OptNilString — assignments to the receiver inside the
+// `d.Next() == jx.Null` block, and those after it before the value is decoded
+func genericDecodeAssignments(files map[string][]byte) (nullPath, valueResets []string) {
+	fset, fs := parseGenerated(files)
+	var decode *ast.FuncDecl
+	for _, f := range fs {
+		for _, d := range f.Decls {
+			fd, ok := d.(*ast.FuncDecl)
+			if !ok || fd.Name.Name != "Decode" || fd.Recv == nil || len(fd.Recv.List) != 1 || fd.Body == nil {
+				continue
+			}
+			if st, ok := fd.Recv.List[0].Type.(*ast.StarExpr); ok {
+				if id, ok := st.X.(*ast.Ident); ok && id.Name == "OptNilString" {
+					decode = fd
+				}
+			}
+		}
+	}
+	if decode == nil || len(decode.Recv.List[0].Names) != 1 {
+		fail("generated probe package: (*OptNilString).Decode not found")
+	}
+	recv := decode.Recv.List[0].Names[0].Name
+	assigns := func(n ast.Node) []string {
+		var out []string
+		ast.Inspect(n, func(n ast.Node) bool {
+			as, ok := n.(*ast.AssignStmt)
+			if !ok {
+				return true
+			}
+			for i, l := range as.Lhs {
+				sel, ok := l.(*ast.SelectorExpr)
+				if !ok {
+					continue
+				}
+				if id, ok := sel.X.(*ast.Ident); !ok || id.Name != recv {
+					continue
+				}
+				rhs := "<value>"
+				if i < len(as.Rhs) {
+					if id, ok := as.Rhs[i].(*ast.Ident); ok && (id.Name == "true" || id.Name == "false") {
+						rhs = id.Name
+					}
+				}
+				out = append(out, "o."+sel.Sel.Name+" = "+rhs)
+			}
+			return true
+		})
+		sort.Strings(out)
+		return out
+	}
+	var nullBlock *ast.IfStmt
+	var after []ast.Stmt
+	for i, st := range decode.Body.List {
+		if is, ok := st.(*ast.IfStmt); ok && nullBlock == nil && strings.Contains(exprText(fset, is.Cond, map[string]bool{"d": true, "jx": true}), "jx.Null") {
+			nullBlock = is
+			after = decode.Body.List[i+1:]
+		}
+	}
+	if nullBlock == nil {
+		fail("generated (*OptNilString).Decode: no `if d.Next() == jx.Null` block")
+	}
+	nullPath = assigns(nullBlock.Body)
+	// statements after the null block up to (not including) the first one that calls the decoder
+	for _, st := range after {
+		calls := false
+		ast.Inspect(st, func(n ast.Node) bool {
+			if c, ok := n.(*ast.CallExpr); ok {
+				if sel, ok := c.Fun.(*ast.SelectorExpr); ok {
+					if id, ok := sel.X.(*ast.Ident); ok && id.Name == "d" {
+						calls = true
+					}
+				}
+			}
+			return !calls
+		})
+		if calls {
+			break
+		}
+		valueResets = append(valueResets, assigns(st)...)
+	}
+	sort.Strings(valueResets)
+	return nullPath, valueResets
 }
 
 // errors: the HTTP status each ogenerrors error type reports (Code methods) and the special cases of
